@@ -19,7 +19,7 @@ from e3fp.fingerprint.metrics import array_metrics as AM, fprint_metrics as FM  
 MEASURES = ["tanimoto", "dice", "soergel", "cosine", "pearson"]
 BINARY = ("tanimoto", "dice")
 FORMS = ["fp-fp", "fp-db", "db-fp", "db-db", "single-db", "fprint_metrics", "dense", "sparse", "sparse-unsorted", "sparse-zeros",
-         "cosine-binary", "sparse-native-unsorted", "dbarr-dbarr", "arr-single"]
+         "cosine-binary", "sparse-native-unsorted", "dbarr-dbarr", "arr-single", "dense-nojit", "sparse-nojit"]
 
 
 class OperandChanged(Exception):
@@ -114,10 +114,10 @@ class C06(vlib.Check):
     props_modules = ["E3fpVerif.Props.C06", "E3fpVerif.Props.C06Real"]
     gen_items = ["metrics"]
     rule = ("pairs of fingerprints of all kinds (empty, identical, subset, disjoint, random; bits 8..2^32 for the fingerprint "
-            "forms, <= 4096 for the matrix forms) x five measures x fourteen calling forms (metrics.* with fp/fp, fp/db, db/fp, "
+            "forms, <= 4096 for the matrix forms) x five measures x sixteen calling forms (metrics.* with fp/fp, fp/db, db/fp, "
             "db/db, single argument; fprint_metrics.*; array_metrics.* on dense arrays, canonical CSR, CSR with shuffled "
             "column order, CSR with explicit zeros; cosine(assume_binary); CSR in the kind's own dtype with shuffled columns and "
-            "databases built by from_array on such matrices, each with an operand-unchanged check; array_metrics.*(X) alone). Non-trivial: both operands non-empty and not "
+            "databases built by from_array on such matrices, each with an operand-unchanged check; array_metrics.*(X) alone; the two Soergel kernels also without the optional Numba JIT). Non-trivial: both operands non-empty and not "
             "identical; distinct by (measure, form, operands).")
     trusted_base = ["SciPy sparse product / norms, np.corrcoef, cdist, nan_to_num, Numba-compiled Soergel kernels (compared on every run)"]
     assumptions = ["float results are compared with the exact rational (or num/sqrt(rad)) to 1e-9 relative"]
@@ -160,6 +160,8 @@ class C06(vlib.Check):
                 for form in FORMS:
                     if form == "cosine-binary" and m != "cosine":
                         continue
+                    if form in ("dense-nojit", "sparse-nojit") and m != "soergel":
+                        continue      # the only kernels behind the optional JIT are the two Soergel loops
                     yield {"t": "metric", "m": m, "form": form, "a": a, "b": b, "seed": rng.randrange(10 ** 6)}
             # operands of different length must be rejected
             b2 = gen_fp(rng, kb, bits * 2, level=5, maxn=6)
@@ -277,6 +279,21 @@ class C06(vlib.Check):
         g = getattr(AM, m)
         r = random.Random(case.get("seed", 0))
         kw = {"assume_binary": True} if form == "cosine-binary" else {}
+        if form in ("dense-nojit", "sparse-nojit"):
+            # what an installation without Numba runs: the undecorated Python loops (maybe_jit returns the function itself)
+            saved = (AM._dense_soergel, AM._sparse_soergel)
+            try:
+                AM._dense_soergel = getattr(saved[0], "py_func", saved[0])
+                AM._sparse_soergel = getattr(saved[1], "py_func", saved[1])
+                if form == "dense-nojit":
+                    X = csr_rows([sa], bits, float).toarray()
+                    Y = csr_rows([sb], b["bits"], float).toarray()
+                else:
+                    X = csr_rows([sa], bits, float, "shuffle", rng=r)
+                    Y = csr_rows([sb], b["bits"], float, "shuffle", rng=r)
+                return float(g(X, Y)[0, 0])
+            finally:
+                AM._dense_soergel, AM._sparse_soergel = saved
         if form == "dense":
             X = csr_rows([sa], bits, float).toarray()
             Y = csr_rows([sb], b["bits"], float).toarray()
@@ -353,7 +370,10 @@ class C06(vlib.Check):
         if form in ("sparse-unsorted", "sparse-native-unsorted"):
             r.shuffle(ra)
             r.shuffle(rb)
-        return [{"op": "met.arr", "m": m, "x": ra, "y": rb, "bits": a["bits"], "dense": form == "dense"}]
+        if form == "sparse-nojit":
+            r.shuffle(ra)
+            r.shuffle(rb)
+        return [{"op": "met.arr", "m": m, "x": ra, "y": rb, "bits": a["bits"], "dense": form in ("dense", "dense-nojit")}]
 
     def model_answer(self, case, answers):
         if case["t"] == "mismatch":
